@@ -187,7 +187,26 @@ def _c_fresh_vec_is_empty(it, st, name, args, t):
     return None
 
 
+DIVERGE = ('__diverge__',)
+
+
+def _c_unwrap(it, st, name, args, t):
+    # std contract: unwrap/expect of a *known* Some/Ok is its payload; of a known None/Err it panics
+    if not args:
+        return None
+    v = args[0]
+    if v[0] == 'agg' and v[1] == 'adt' and v[2] in ('core::option::Option', 'core::result::Result'):
+        good = 'Some' if v[2].endswith('Option') else 'Ok'
+        if name.endswith('_err'):
+            good = 'Err'
+        if v[3] == good:
+            return v[4][0][1]
+        return DIVERGE
+    return None
+
+
 STD_CONTRACTS = {
+    r'^core::(option::Option|result::Result)::(unwrap|expect|unwrap_err|expect_err)$': _c_unwrap,
 }
 
 
@@ -582,6 +601,10 @@ class Interp:
         for pat, f in self.contracts.items():
             if re.search(pat, name):
                 r = f(self, st, name, args, t)
+                if r is DIVERGE:
+                    st._outcome = ('diverge', name, (), t, fn, bb)
+                    yield st, None
+                    return
                 if r is not None:
                     yield st, r
                     return
